@@ -65,6 +65,10 @@ func (P) exec(line string) string {
 		return execTreap(f[2], f[3:])
 	case "db":
 		return execDb(f[2:])
+	case "race":
+		return execRace(f[2:])
+	case "racebuild":
+		return execRaceBuild(f[2:])
 	}
 	return "bad-op"
 }
@@ -89,6 +93,14 @@ func (P) Generate(g *core.Gen) {
 	for i := g.N(15, 500); i > 0; i-- {
 		line, nt := genBlocks(g.R)
 		g.Case("blocks", nt, line)
+	}
+	// schedules of readers against one writer: exploration only
+	for i := g.N(2, 30); i > 0; i-- {
+		g.Case("race-exploration", true, fmt.Sprintf("C05 race %d %d %d %d", g.R.Intn(1000), 2+g.R.Intn(4),
+			20+g.R.Intn(40), g.R.Pick(0, 400, 100000000)))
+	}
+	if g.Thorough() {
+		g.Case("race-detector", true, "C05 racebuild 6")
 	}
 	emit := func(class, line string) { g.Case(class, true, line) }
 	for i := g.N(3, 80); i > 0; i-- {
